@@ -28,6 +28,7 @@ Definition F_ONLY := 1.
 Definition F_EMPTY_ONLY := 2.
 Definition F_SHUTDOWN := 3.
 Definition F_QSIZE := 4.
+Definition F_BUSY := 5.   (* iwtp_threads_busy_num *)
 
 (* return codes, canonical small enum (the harness maps iwrc to these) *)
 Definition RC_OK := 0.
@@ -36,6 +37,17 @@ Definition RC_OVERFLOW := 2.
 
 Definition memb (x : nat) (l : list nat) : bool := existsb (Nat.eqb x) l.
 Definition remove1 (x : nat) (l : list nat) : list nat := filter (fun y => negb (Nat.eqb y x)) l.
+(* iwulist_find_first / iwulist_remove_first_by on a list of thread ids (src/utils/iwarr.c) *)
+Fixpoint find_first (x : nat) (l : list nat) : option nat :=
+  match l with
+  | [] => None
+  | y :: r => if Nat.eqb y x then Some 0 else match find_first x r with Some i => Some (S i) | None => None end
+  end.
+Fixpoint remove_first (x : nat) (l : list nat) : list nat :=
+  match l with
+  | [] => []
+  | y :: r => if Nat.eqb y x then r else y :: remove_first x r
+  end.
 Definition upd {A} (m : nat -> A) (k : nat) (v : A) : nat -> A := fun k' => if Nat.eqb k' k then v else m k'.
 Definition is_nil {A} (l : list A) : bool := match l with [] => true | _ => false end.
 Definition free_mtx (o : option tid) : bool := match o with None => true | Some _ => false end.
